@@ -80,9 +80,11 @@ pub fn run(ctx: &mut Ctx) {
     }
     ctx.bound("configurations", serde_json::json!(ids));
 
-    const SHARD: u64 = 400;
+    
     for sweep in cases::SWEEPS {
         let n = cases::count(sweep, thorough);
+        #[allow(non_snake_case)]
+        let SHARD: u64 = if n > 100_000 { 8000 } else { 400 };
         let shards = (n + SHARD - 1) / SHARD;
         let cfgs = &configs;
         ctx.sweep(&format!("configs.{}", sweep), shards, |si, rec| {
@@ -102,6 +104,9 @@ pub fn run(ctx: &mut Ctx) {
                 }
                 for (k, (a, b)) in own.iter().zip(lines.iter()).enumerate() {
                     rec.step();
+                    if b.contains(":BAD[") && *sweep != "log2" {
+                        rec.fail(format!("{}|log2|bounds-do-not-enclose|{}", P, cname), format!("case {} in configuration {}", lo + k as u64, cname), b.clone(), "lb <= log2(x) <= ub");
+                    }
                     if *sweep == "log2" {
                         if b.contains("BAD") {
                             rec.fail(format!("{}|log2|bounds-do-not-enclose|{}", P, cname), format!("case {} in configuration {}", lo + k as u64, cname), b.clone(), "lb <= log2(x) <= ub");
@@ -109,6 +114,10 @@ pub fn run(ctx: &mut Ctx) {
                             rec.hit("log2-bounds-hold");
                         }
                         continue;
+                    }
+                    if *sweep == "text.struct" && (b.contains("pc:Err") || b.contains("js:Err") || b.contains(":Ok(false)") || b.contains("u:Err") || b.contains("pfx:Err")) {
+                        // (round trips of well-formed values must succeed in every configuration, not just agree)
+                        rec.fail(format!("{}|text.struct|round-trip-or-parse-failed|{}", P, cname), format!("case {} in configuration {}", lo + k as u64, cname), b.clone(), "the well-formed digit string parses and the float survives postcard / JSON");
                     }
                     if a != b {
                         rec.fail(format!("{}|{}|differs-between-configurations|{},{}", P, sweep, cname, diff_class(a, b)), format!("case {}: {}", lo + k as u64, a.split(" => ").next().unwrap_or("")), format!("[{}] {}", cname, b), format!("[this process, mon] {}", a));
